@@ -255,8 +255,16 @@ Proof. intros H; destruct H; reflexivity. Qed.
 
 Lemma can_strip n e : can n e -> strip e = e.
 Proof.
-  induction 1 as [n m e H IH L | e A | e H IH | c base v C U | c v C U | op e O H IH F | e H IH | op n l r OL R Hl IHl Hr IHr | op l r OL Hl IHl Hr IHr];
-    unfold strip in *; cbn [erase]; try rewrite IH; try rewrite IHl, IHr; try reflexivity; auto.
+  intros C. induction C as [n m e H IH L | e A | e H IH | c base v C U | c v C U | op e O H IH F | e H IH | op n l r OL R Hl IHl Hr IHr | op l r OL Hl IHl Hr IHr
+                 | neg l Hl IHl | neg l v Hl IHl | neg l s x Hl IHl Hs IHs Hx IHx | neg l x Hl IHl Hx IHx | neg l e1 es Hl IHl H1 IH1 Hes IHes] using can_ind';
+    unfold strip in *.
+  14: { change (erase (fun b => b) (EIn neg l (CValues 0 0 (e1 :: es))))
+          with (EIn neg (erase (fun b => b) l) (CValues 0 0 (erase (fun b => b) e1 :: (fix go (l : list expr) := match l with [] => [] | x :: r => erase (fun b => b) x :: go r end) es))).
+        rewrite IHl, IH1, erase_go. f_equal. f_equal. f_equal. unfold erase_l.
+        clear -IHes. induction es as [|x r IHr]; [reflexivity|]. inversion IHes; subst. cbn [map]. f_equal; auto. }
+  13: { change (erase (fun b => b) (EIn neg l (CUnnest 0 0 x))) with (EIn neg (erase (fun b => b) l) (CUnnest 0 0 (erase (fun b => b) x))).
+        rewrite IHl, IHx. reflexivity. }
+  all: cbn [erase]; try rewrite IH; try rewrite IHl; try rewrite IHr; try rewrite IHs; try rewrite IHx; try reflexivity; auto.
   apply atom_strip, A.
 Qed.
 
